@@ -83,4 +83,8 @@ pub struct KChild {
     /// deadline could never be overrun between two seam calls.
     #[serde(default)]
     pub ev_delay_us: Vec<u64>,
+    /// value of the `RUST_LOG` environment variable the client is started with (None = unset):
+    /// what a client does must not depend on how much of its diagnostics is switched on
+    #[serde(default)]
+    pub rust_log: Option<String>,
 }
